@@ -12,11 +12,11 @@ package filtering
 //vx:entry vxC06Resolve reach=not-matched,pass-self,pass-self-wild,pass-family,rewritten-ips,matched-no-value,matched-other-qtype,cname-upstream,cname-local,cname-chain,cname-wild-self,cname-over-addr,exact-shadows-wild,longest-wild,cycle,open-tie first_ms=4000
 //vx:entry vxC06Terminates reach=t-max,t-done
 //vx:stub github.com/AdguardTeam/AdGuardHome/internal/filtering.findRewrites vxC06FindRewrites
-//vx:note table: exactly N entries in every order (quick N=2, thorough N=3; termination entry N=4 in thorough); every pattern byte symbolic, pattern lengths quick {3,5} / thorough {1,3,5}; each entry is an IPv4 value, an IPv6 value (one symbolic address byte each) or an entry without address whose type is symbolic in {A exception, AAAA exception, CNAME} and whose answer is a symbolic string of length quick {3,5} / thorough {1,3,5}; queried name: symbolic bytes, length quick {3,5} / thorough {1,3,5,7}; query type: any 16-bit value
+//vx:note table: exactly N entries in every order, duplicates allowed (Resolve: quick N=2, thorough N=3; Terminates: CNAME entries only, quick N=3, thorough N=4). Pattern: plain name of 3 or 5 symbolic bytes (first byte not '*') or "*."+1 or 3 symbolic bytes (covers a, a.b, x.a.b, *.b, *.a.b and every other byte content). Entry: IPv4 value, IPv6 value (one symbolic address byte each), or an entry without address whose type is symbolic in {A exception, AAAA exception, CNAME} and whose answer is a plain name of symbolic bytes (quick 3 or 5, thorough N=3: 3 bytes) or, for wildcard patterns, the pattern itself. Queried name: plain name of 3 or 5 symbolic bytes; query type: any 16-bit value
 //vx:note assumed (what normalize guarantees): a CNAME answer is not an address literal (no ':' and no trailing digit) and not "A"/"AAAA"; the answer text of address/exception entries is not modelled (the kernel never reads it)
 //vx:note reference = resolver written from the statement and AGHTechDoc "Rewrites"; corners the documentation leaves open are checked for termination and soundness only: revisiting a name (cycles: which name ends up canonical), several top-ranked CNAME rows with different answers, value and exception rows of the requested family at the same rank, several rows for the same top-ranked wildcard, an other-family exception row that outranks the requested family's rows
 //vx:note the findRewrites stub only counts calls (termination clause: at most N+1 lookups) and calls the real function
-//vx:note outside: normalize/ParseAddr on arbitrary text, tables larger than N, names longer than 7 bytes, sort beyond the insertion-sort regime (<=4 elements here)
+//vx:note outside: normalize/ParseAddr on arbitrary text, tables larger than N, names longer than 5 bytes (wildcard nesting deeper than two levels), queried names and CNAME targets that themselves begin with "*", sort beyond the insertion-sort regime (<=4 elements here)
 
 import (
 	"net/netip"
